@@ -70,6 +70,12 @@ theorem dist_unit_ge_length_diff (s t : List α) :
   have := len_le_cost al
   rw [hs, ht, hc] at this; exact this
 
+/-- The unit-cost distance never exceeds the length of the longer sequence (pair the sequences
+position by position and delete / insert the rest). -/
+theorem dist_unit_le_max_length (s t : List α) : dist unit s t ≤ max s.length t.length := by
+  obtain ⟨hw, hs, ht, hc⟩ := zipAl_props s t
+  exact Nat.le_trans (dist_le_cost unit s t _ hw hs ht) hc
+
 example : dist unit [1, 2, 3] [1, 2, 3] = 0 ∧ dist unit [1, 2, 3] [1, 3] = 1 := by decide
 
 /-- A line's error summary: substitutions + insertions + deletions = distance, and the summary is
